@@ -264,6 +264,37 @@ Theorem C41_model_regex_ok : forall p t max repl tpl full,
 Proof. exact model_regex_ok. Qed.
 Print Assumptions C41_model_regex_ok.
 
+(* ---- sequences of re: calls ---- *)
+
+(* The answer to a re: call depends on its own arguments only: in any two
+   sequences of calls (whatever ran before, whatever runs after, whatever
+   options earlier calls on the same pattern used) the same call gets the same
+   answer, namely the function run_call of its arguments and of the match list
+   of an engine compiled afresh with the call's own flags. *)
+Theorem C41_call_depends_on_own_arguments_only : forall engine pre1 post1 pre2 post2 c,
+  nth_error (run_seq engine (pre1 ++ c :: post1)) (length pre1)
+  = nth_error (run_seq engine (pre2 ++ c :: post2)) (length pre2)
+  /\ nth_error (run_seq engine (pre1 ++ c :: post1)) (length pre1)
+     = Some (run_call c (fresh_of engine c)).
+Proof.
+  exact (fun engine pre1 post1 pre2 post2 c =>
+    conj (call_independent_of_history engine pre1 post1 pre2 post2 c) (run_seq_nth engine pre1 c post1)).
+Qed.
+Print Assumptions C41_call_depends_on_own_arguments_only.
+
+Theorem C41_run_seq_app : forall engine a b,
+  run_seq engine (a ++ b) = run_seq engine a ++ run_seq engine b.
+Proof. exact run_seq_app. Qed.
+Print Assumptions C41_run_seq_app.
+
+(* for every engine whose match lists satisfy the contract, the model's answers
+   to every sequence of calls pass the oracle *)
+Theorem C41_model_seq_ok : forall engine cs,
+  (forall c, In c cs -> fresh_ok c (fresh_of engine c) = true) ->
+  oracle (CSeq (map (fun c => mkStep c (fresh_of engine c) (run_call c (fresh_of engine c))) cs)) = true.
+Proof. exact model_seq_ok. Qed.
+Print Assumptions C41_model_seq_ok.
+
 (* ---- non-vacuity ---- *)
 
 Example C41_ex_split : str_split (-1) [44]%N [97; 44; 98; 44]%N = [[97]; [98]; []]%N.
@@ -289,3 +320,11 @@ Proof. vm_compute. split; reflexivity. Qed.
 Example C41_ex_from_codepoints : from_codepoints [55296]%Z = RBadValue
   /\ from_codepoints [1114112]%Z = ROutOfRange /\ from_codepoints [233]%Z = ROk [195; 169]%N.
 Proof. vm_compute. repeat split; reflexivity. Qed.
+(* pattern a|ab on ab: a fresh leftmost-first engine finds [0,1); an answer [0,2)
+   (what a shared regexp switched to leftmost-longest would give) is flagged *)
+Example C41_ex_seq_flags_stale_longest :
+  let c := mkCall OpFind [97; 124; 97; 98]%N [97; 98]%N (-1) [] false false in
+  let fresh := Some [mkM 0 1 [97]%N [(0, 1)%Z]] in
+  oracle (CSeq [mkStep c fresh (XMatches [mkM 0 1 [97]%N [(0, 1)%Z]])]) = true
+  /\ judge1 (CSeq [mkStep c fresh (XMatches [mkM 0 2 [97; 98]%N [(0, 2)%Z]])]) = 2%N.
+Proof. vm_compute. split; reflexivity. Qed.
